@@ -14,7 +14,8 @@ type propCfg struct {
 	Assumptions     []string
 	Env             map[string]string
 	// PreBuild may prepare files in scratch and return extra `go test -c` arguments.
-	PreBuild func(scratch string, env []string) ([]string, error)
+	// repo is the anko checkout under test; modArgs are extra go flags selecting it.
+	PreBuild func(scratch, repo string, env []string, modArgs []string) ([]string, error)
 }
 
 var commonAssumptions = []string{
@@ -46,4 +47,19 @@ func reg(id string, c propCfg) {
 func init() {
 	reg("C05", propCfg{Pkg: "./props/c05", Rule: "differential against native Go arithmetic",
 		Assumptions: assume("the reference evaluator (native Go int64/float64 operators, fmt.Sprint, strings.Repeat) is the specification of the tower")})
+}
+
+func init() {
+	reg("C04", propCfg{Pkg: "./props/c04", Rule: "model-based: anko vs reference interpreter",
+		Assumptions: assume("the reference interpreter (internal/prog/model.go) encodes the statement; where the statement leaves a choice open every admitted parameterisation is accepted")})
+}
+
+func init() {
+	reg("C08", propCfg{Pkg: "./props/c08", Rule: "model-based: anko vs reference interpreter",
+		Assumptions: assume("the reference interpreter (internal/prog/model.go) encodes the statement", "break/continue/return leaving a try body directly are excluded by construction (known finding F-try-signal)")})
+}
+
+func init() {
+	reg("C09", propCfg{Pkg: "./props/c09", Rule: "model-based: anko vs reference interpreter",
+		Assumptions: assume("the reference interpreter (internal/prog/model.go) encodes the statement", "when several deferred calls fail any of their errors is accepted; finally after an abruptly exiting catch block is accepted either way", "break/continue/return leaving a try body directly are excluded by construction (known finding F-try-signal)")})
 }
